@@ -429,8 +429,8 @@ func isFlagSet(name string) bool {
 	return set
 }
 
-// gcOld removes scratch trees other than the current one that are older than a day
-// or, beyond the five most recent, any.
+// gcOld removes scratch trees other than the current one: those older than a day, those
+// older than two hours beyond the twelve most recent, and any beyond the sixty most recent.
 func gcOld(dir, keep string) {
 	ents, err := os.ReadDir(dir)
 	if err != nil {
@@ -453,7 +453,8 @@ func gcOld(dir, keep string) {
 	}
 	sort.Slice(old, func(i, j int) bool { return old[i].mod.After(old[j].mod) })
 	for i, o := range old {
-		if i >= 8 || time.Since(o.mod) > 24*time.Hour {
+		// several checks may run at once on different trees (seeded-change runs): only old trees go
+		if (i >= 12 && time.Since(o.mod) > 2*time.Hour) || i >= 60 || time.Since(o.mod) > 24*time.Hour {
 			os.RemoveAll(filepath.Join(dir, o.name))
 		}
 	}
